@@ -16,7 +16,17 @@ func (i *Item) DedupeItems() error {
 			continue
 		}
 		if existing, ok := urls[node.url.String()]; ok {
-			if existing.status != ItemCompleted && !existing.IsSeed() && node.status == ItemCompleted { // Keep the completed item
+			keepNode := existing.status != ItemCompleted && !existing.IsSeed() && node.status == ItemCompleted // Keep the completed item
+
+			// Never drop a node that already has children when its duplicate is a leaf:
+			// its whole subtree would be discarded with it, and the URLs only found there would be lost
+			if len(node.children) > 0 && len(existing.children) == 0 {
+				keepNode = true
+			} else if len(existing.children) > 0 && len(node.children) == 0 {
+				keepNode = false
+			}
+
+			if keepNode {
 				existing.parent.RemoveChild(existing)
 				urls[node.url.String()] = node
 			} else {
